@@ -266,6 +266,18 @@ func confirmAndShrink(plan *Plan, out *RunOut, seed uint64, a WorkerArgs, opt Ru
 	if out.Pinned != nil {
 		plan = out.Pinned
 	}
+	if class == "race/data-race" {
+		// ThreadSanitizer reports each racing pair once per process, so the
+		// violation cannot be re-observed (or shrunk) here; the parent replays
+		// the file in a fresh process.
+		rf := &ReplayFile{Property: a.Prop, Seed: seed, Tier: a.Tier, Plan: plan, Tape: out.Tape, Violation: out.Viol,
+			Note: "race reports are de-duplicated per process: replay in a fresh process (bin/verif replay)"}
+		path := filepath.Join(a.ReplayDir, fmt.Sprintf("%s-%d.json", a.Prop, seed))
+		if err := WriteReplay(path, rf); err != nil {
+			return nil, "cannot write replay file: " + err.Error()
+		}
+		return &ViolationReport{Prop: a.Prop, Seed: seed, Class: class, Msg: out.Viol.Msg, Replay: path}, ""
+	}
 	// determinism: the recorded tape must reproduce the same violation class
 	re := Execute(plan.Clone(), simrt.ReplayTape(out.Tape), opt)
 	if re.Viol == nil || re.Viol.Class != class {
